@@ -6,15 +6,19 @@ import subprocess
 
 HERE = os.path.dirname(os.path.dirname(os.path.abspath(__file__)))
 
-# property id -> (technique, level text, level note, design ref)
-CLAIMED = {
-    "C12": (
-        "property-based testing: Fraction reference predicate on a dyadic grid (exact boundary cases) + decisive/borderline free floats + symmetry/monotonicity laws",
-        "Generated-input search against an exact-arithmetic oracle for intervals_overlap, have_temporal/frequency_overlap and is_in_clip; boundary cases (touching, overlap == threshold, event ending at clip start) are constructed exactly. Exploration: the verdict is 'held on everything generated'.",
-        "trusts fractions.Fraction and the reference bounds walker (min/max over coordinate leaves); thresholds non-negative, intervals given start<=stop",
-        "DESIGN.md section 6, C12",
-    ),
-}
+import importlib
+import sys
+
+sys.path.insert(0, HERE)
+CLAIMED = {}
+for _i in range(1, 21):
+    _pid = f"C{_i:02d}"
+    if not os.path.exists(os.path.join(HERE, "vf", "checks", f"c{_i:02d}.py")):
+        continue
+    _m = importlib.import_module(f"vf.checks.c{_i:02d}")
+    if getattr(_m, "NOT_CLAIMED", None):
+        continue
+    CLAIMED[_pid] = (_m.TECHNIQUE, _m.LEVEL_TEXT, _m.LEVEL_NOTE, f"DESIGN.md section 6, {_pid}")
 
 ALL = [f"C{i:02d}" for i in range(1, 21)]
 
